@@ -274,6 +274,10 @@ type hookCtl struct {
 	parked     []chan struct{} // parked post-rotation flush goroutines
 	rotEnter   int
 	rotExit    int
+	// pendingRot: rotated chunks whose flush goroutine (spawned at rotation) has not arrived yet, per (bucket, chunk);
+	// countedRot: goroutines whose flush was counted as such (GC also flushes chunks by id: those calls are not counted)
+	pendingRot map[[2]int]int
+	countedRot map[int64]int
 	extra      func(name string, args ...interface{}) // check-specific handler, called without the lock
 	events     []string                               // optional event log
 	logEvents  bool
@@ -295,6 +299,8 @@ func (h *hookCtl) reset(parkRot bool) {
 	h.parkRot = parkRot
 	h.parked = nil
 	h.rotEnter, h.rotExit = 0, 0
+	h.pendingRot = map[[2]int]int{}
+	h.countedRot = map[int64]int{}
 	h.extra = nil
 	h.events = nil
 	h.logEvents = false
@@ -317,18 +323,35 @@ func (h *hookCtl) handle(name string, args ...interface{}) {
 	}
 	var park chan struct{}
 	switch name {
+	case "ds.rotate":
+		// AppendRecord spawns `go flush(newHead-1)` right after this point
+		if h.pendingRot != nil {
+			h.pendingRot[[2]int{args[0].(int), args[1].(int) - 1}]++
+		}
 	case "ds.flush.enter":
-		// the goroutine spawned at rotation passes a chunk id (so does Bucket.close, but on the interpreter goroutine)
+		// the goroutine spawned at rotation passes a chunk id (so do Bucket.close, on the interpreter goroutine, and GC
+		// for each of its source files: only a flush of a chunk whose rotation flush is still outstanding counts)
 		if chunk := args[1].(int); chunk >= 0 && goid() != atomic.LoadInt64(&driverGoid) {
-			h.rotEnter++
-			if h.parkRot {
-				park = make(chan struct{})
-				h.parked = append(h.parked, park)
+			key := [2]int{args[0].(int), chunk}
+			if h.pendingRot[key] > 0 {
+				h.pendingRot[key]--
+				h.countedRot[goid()]++
+				h.rotEnter++
+				if h.parkRot {
+					park = make(chan struct{})
+					h.parked = append(h.parked, park)
+				}
 			}
 		}
 	case "ds.flush.exit":
 		if chunk := args[1].(int); chunk >= 0 && goid() != atomic.LoadInt64(&driverGoid) {
-			h.rotExit++
+			if g := goid(); h.countedRot[g] > 0 {
+				h.countedRot[g]--
+				if h.countedRot[g] == 0 {
+					delete(h.countedRot, g)
+				}
+				h.rotExit++
+			}
 		}
 	}
 	extra := h.extra
